@@ -64,4 +64,292 @@ def targets():
     ]
 
 
-STAGES = []
+STAGES = [['C18_norm.v'],
+          ['C18_matrix.v', 'C18_quat.v', 'C18_angdist.v', ('C18_refuted.v', {'finding': 'angular_distance/exact-half-turn'})],
+          ['C18_main.v'], ['C18.v']]
+
+LEVEL_TEXT = ("Coq theorems over the regenerated seven metrics (2-D/1-D and N-row branches, DCM constructor gate and DCM.log included): "
+              "closed forms in the relative angle, bi-invariance, symmetry, sign invariance, zero set, triangle inequality of the three "
+              "true metrics, inertness of the allclose shortcuts for t >= 1e-4; angular_distance at an exactly symmetric half-turn is a "
+              "known finding exhibited by a refuted theorem")
+TECHNIQUE = "pysym regeneration + Coq (ring/field/nra, stdlib trigonometry) + vm_compute correspondence + numeric search"
+RULE = ("pairs and triples of rotations with relative angles 1e-4 .. pi (thin regions: 1e-4, 5.5e-3 around the old DCM.log shortcut, "
+        "pi-1e-6, pi-1e-9, exact half-turns, antipodal representatives p.q < 0, exactly equal arguments), single and N-row inputs "
+        "with N in {1,2,3,4,5,7}, float64 / float32 / integer / list operands; non-trivial = the two rotations differ")
+TRUSTED = ["Coq 8.16.1 kernel; vm_compute for the float copies", "pysym tracing translator (incl. its numpy.linalg.norm, isclose, "
+           "min/max-along-axis semantics)", "stdlib real-number axioms + Classical_Prop.classic (stdlib trigonometry)",
+           "real arithmetic stands for binary64 (measured by correspondence and search)",
+           "matrix metrics are traced on textbook matrices of unit quaternions (angular_distance) or on arbitrary 3x3 entries (chordal, identity_deviation)"]
+PARTIAL = ("angular_distance at an exactly symmetric half-turn returns 0 (known finding, DCM.log owned by C10): theorem for 0 <= t < pi; "
+           "symmetry/invariance theorems are stated for relative angles >= 1e-4 (inside 2e-5 the 1-D allclose shortcut is not symmetric); "
+           "triangle inequality proved for chordal, identity_deviation, qdist only (the angle metrics qcip/qad/angular_distance: explored by search); "
+           "identity_deviation and angular_distance have no working N-row form (they raise ValueError on (N,3,3) input): observed, not claimed")
+
+
+# ------------------------------------------------------------------------------------------
+# implementation entry points
+# ------------------------------------------------------------------------------------------
+QM = ('qdist', 'qeip', 'qcip', 'qad')
+MM = ('chordal', 'identity_deviation', 'angular_distance')
+
+
+def _M():
+    from ahrs.utils import metrics
+    return metrics
+
+
+def _pq(c):
+    return np.array([c[k] for k in P], float), np.array([c[k] for k in Q], float)
+
+
+def _rows4_np(p, q):
+    return np.array([p, q, -p, q]), np.array([q, p, q, -p])
+
+
+def _mats(c):
+    return np.array([c[k] for k in MA], float).reshape(3, 3), np.array([c[k] for k in MB], float).reshape(3, 3)
+
+
+def _pairs(ctx, n):
+    """unit quaternion pairs (p, q) with named relative angles first, then random ones; both representatives of q"""
+    out = []
+    ts = [1e-4, 1.0000001e-4, 3e-4, 1e-3, 5e-3, 5.4e-3, 5.6e-3, 1e-2, 0.1, 0.5, 1.0, math.pi / 2, 2.0, 3.0, 3.1, math.pi - 1e-3,
+          math.pi - 1e-6, math.pi - 1e-9, math.pi]
+    rng = ctx.rng
+    for i, t in enumerate(ts):
+        p = cm.rand_unit_quat(rng)
+        ax = ([1, 0, 0], [0, 1, 0], [0, 0, 1], [1, 2, 3], [-1, 1, 0.5])[i % 5] if i % 2 == 0 else rng.standard_normal(3)
+        q = cm.unit(cm.qmul(p, cm.axang_q(ax, t)))
+        out.append((t, p, q if i % 3 else -q))
+    while len(out) < n:
+        t = float(rng.choice([10 ** rng.uniform(-4, 0), rng.uniform(0, math.pi), math.pi - 10 ** rng.uniform(-9, -1)]))
+        p = cm.rand_unit_quat(rng)
+        q = cm.unit(cm.qmul(p, cm.axang_q(rng.standard_normal(3), t)))
+        out.append((t, p, q if rng.random() < 0.5 else -q))
+    return out
+
+
+EXACT = [([1, 0, 0, 0], [0, 1, 0, 0]), ([1, 0, 0, 0], [0, 0, 0, 1]), ([0, 1, 0, 0], [0, 0, 1, 0]), ([1, 0, 0, 0], [1, 0, 0, 0]),
+         ([1, 0, 0, 0], [-1, 0, 0, 0]), ([0.5, 0.5, 0.5, 0.5], [0.5, -0.5, 0.5, 0.5]), ([0.5, 0.5, 0.5, 0.5], [-0.5, -0.5, -0.5, -0.5]),
+         ([0, 0.6, 0.8, 0], [1, 0, 0, 0]), ([0.6, 0, 0.8, 0], [0.8, 0, -0.6, 0])]
+
+
+def correspondence(ctx):
+    M = _M()
+    n = ctx.n(30, 300)
+    prs = _pairs(ctx, n)
+    cases = [{**cm.d(P, p), **cm.d(Q, q)} for _, p, q in prs]
+    cases += [{**cm.d(P, p), **cm.d(Q, q)} for p, q in EXACT]
+    # shortcut region (both sides must return exactly 0), scaled (the code normalises) inputs
+    for t in (0.0, 1e-9, 1e-6):
+        p = cm.rand_unit_quat(ctx.rng)
+        q = cm.unit(cm.qmul(p, cm.axang_q([1, -2, 0.5], t)))
+        cases.append({**cm.d(P, p), **cm.d(Q, q)})
+    qcases = cases + [{**cm.d(P, np.array([c[k] for k in P]) * 3.0), **cm.d(Q, np.array([c[k] for k in Q]) * 0.25)} for c in cases[:8]]
+    for name in QM:
+        f = getattr(M, name)
+        acos = name in ('qcip', 'qad')
+        ctx.correspond(f'C18_{name}', qcases, (lambda c, f=f: f(*_pq(c))), tol_ulp=256, abs_tol=2e-7 if acos else 0.0)
+        ctx.correspond(f'C18_{name}_batch', qcases, (lambda c, f=f: f(*_rows4_np(*_pq(c)))), tol_ulp=256, abs_tol=2e-7 if acos else 0.0)
+    R = cm.Rspec
+    ctx.correspond('C18_chordal', cases, lambda c: M.chordal(R(_pq(c)[0]), R(_pq(c)[1])), tol_ulp=256)
+    ctx.correspond('C18_iddev', cases, lambda c: M.identity_deviation(R(_pq(c)[0]), R(_pq(c)[1])), tol_ulp=256)
+    ctx.correspond('C18_angdist', cases, lambda c: M.angular_distance(R(_pq(c)[0]), R(_pq(c)[1])), tol_ulp=256, abs_tol=1e-12)
+    mc = []
+    for i, (_, p, q) in enumerate(prs[:ctx.n(20, 120)]):
+        A, B = R(p), R(q)
+        if i % 3 == 0:
+            A = A + ctx.rng.standard_normal((3, 3)) * 0.1        # arbitrary 3x3 arrays: no SO(3) gate in these two functions
+        mc.append({**cm.d(MA, A.reshape(-1)), **cm.d(MB, B.reshape(-1))})
+    ctx.correspond('C18_chordal_M', mc, lambda c: M.chordal(*_mats(c)), tol_ulp=256)
+    ctx.correspond('C18_iddev_M', mc, lambda c: M.identity_deviation(*_mats(c)), tol_ulp=256)
+    ctx.correspond('C18_chordal_M_batch', mc, lambda c: (lambda A, B: M.chordal(np.array([A, B, A]), np.array([B, A, A])))(*_mats(c)), tol_ulp=256)
+
+
+# ------------------------------------------------------------------------------------------
+# search oracles: the property statement evaluated on the implementation
+# ------------------------------------------------------------------------------------------
+def rel_angle(p, q):
+    """relative rotation angle in [0, pi], accurate at both ends"""
+    r = cm.qmul(cm.qconj(p), q)
+    return 2.0 * math.atan2(float(np.linalg.norm(r[1:])), abs(float(r[0])))
+
+
+def closed(t):
+    s4 = math.sin(t / 4)
+    return {'chordal': 2 * math.sqrt(2) * math.sin(t / 2), 'identity_deviation': 2 * math.sqrt(2) * math.sin(t / 2),
+            'angular_distance': math.sqrt(2) * t, 'qdist': 2 * s4, 'qeip': 2 * s4 * s4, 'qcip': t / 2, 'qad': t}
+
+
+TOL = {'chordal': 1e-10, 'identity_deviation': 1e-10, 'angular_distance': 1e-10, 'qdist': 1e-10, 'qeip': 1e-10, 'qcip': 1e-7, 'qad': 1e-7}
+
+
+def _cast(a, form):
+    a = np.asarray(a, float)
+    if form == 'list':
+        return a.tolist()
+    if form == 'int-list':
+        return [[int(v) for v in r] for r in a.tolist()] if a.ndim > 1 else [int(v) for v in a.tolist()]
+    if form == 'int':
+        return a.astype(np.int64)
+    if form == 'float32':
+        return a.astype(np.float32)
+    return a.copy()
+
+
+def _all7(p, q, form='float64'):
+    """the seven metrics on one pair, through the public entry points (matrix metrics on the textbook matrices)"""
+    M = _M()
+    out = {}
+    A, B = cm.Rspec(p), cm.Rspec(q)
+    for k in QM + MM:
+        x, y = (p, q) if k in QM else (A, B)
+        try:
+            out[k] = float(getattr(M, k)(_cast(x, form), _cast(y, form)))
+        except Exception as e:            # an exception of one entry point is a violation of that entry point
+            raise MetricRaises(f"{k}/raises-{type(e).__name__}" + ('' if form == 'float64' else f'-{form}'))
+    return out
+
+
+class MetricRaises(Exception):
+    pass
+
+
+def _ang_region(p, q, t):
+    A = cm.Rspec(p) @ cm.Rspec(q).T
+    return 'exact-half-turn' if (t > 3.0 and np.array_equal(A, A.T)) else 'closed-form'
+
+
+def o_pair(inp):
+    """one pair (p, q) and a third rotation r: non-negativity, closed forms, symmetry, sign invariance, left/right invariance"""
+    p, q, r = (np.array(inp[k], float) for k in 'pqr')
+    form = inp.get('form', 'float64')
+    t = rel_angle(p, q)
+    exp = closed(t)
+    v = _all7(p, q, form)
+    for k, x in v.items():
+        if not math.isfinite(x) or x < 0:
+            return {'tag': f'{k}/negative-or-nonfinite', 'observed': x, 'expected': exp[k]}
+    for k, x in v.items():
+        if abs(x - exp[k]) > TOL[k] * max(1.0, exp[k]):
+            kind = _ang_region(p, q, t) if k == 'angular_distance' else ('closed-form' if form == 'float64' else f'closed-form-{form}')
+            return {'tag': f'{k}/{kind}', 'observed': x, 'expected': exp[k], 'note': f't={t!r}'}
+    if t < 1e-4 and t != 0.0:
+        return None          # inside the shortcut window only non-negativity and the closed forms of the matrix metrics are claimed
+    half = _ang_region(p, q, t) == 'exact-half-turn'
+    others = {'symmetry': (q, p), 'sign': (-p, q), 'sign2': (p, -q),
+              'left-invariance': (cm.unit(cm.qmul(r, p)), cm.unit(cm.qmul(r, q))),
+              'right-invariance': (cm.unit(cm.qmul(p, r)), cm.unit(cm.qmul(q, r)))}
+    for kind, (p2, q2) in others.items():
+        v2 = _all7(p2, q2, 'float64' if kind.endswith('invariance') else form)
+        for k in v:
+            if k == 'angular_distance' and (half or _ang_region(p2, q2, t) == 'exact-half-turn'):
+                continue
+            if abs(v2[k] - v[k]) > 10 * TOL[k] * max(1.0, exp[k]):
+                return {'tag': f'{k}/{kind.rstrip("2")}', 'observed': v2[k], 'expected': v[k], 'note': f't={t!r}'}
+    return None
+
+
+def o_coincide(inp):
+    """equal rotations (q = p and q = -p) are at distance exactly 0; every metric is symmetric there too"""
+    p = np.array(inp['p'], float)
+    form = inp.get('form', 'float64')
+    for sgn in (1.0, -1.0):
+        v = _all7(p, sgn * p, form)
+        for k, x in v.items():
+            lim = 0.0 if k in ('qdist', 'qeip', 'qcip', 'qad', 'chordal') else 1e-12
+            if not (abs(x) <= lim):
+                return {'tag': f'{k}/nonzero-at-coincide', 'observed': x, 'expected': 0.0}
+    return None
+
+
+def o_triangle(inp):
+    """triangle inequality of the three true metrics (chordal, identity_deviation, qdist) and, explored, of the angle metrics"""
+    p, q, r = (np.array(inp[k], float) for k in 'pqr')
+    a, b, c = _all7(p, r), _all7(p, q), _all7(q, r)
+    for k in ('chordal', 'identity_deviation', 'qdist', 'qcip', 'qad', 'angular_distance'):
+        if k == 'angular_distance' and any(_ang_region(*pr, rel_angle(*pr)) == 'exact-half-turn' for pr in ((p, r), (p, q), (q, r))):
+            continue
+        if a[k] > b[k] + c[k] + (1e-7 if k in ('qcip', 'qad') else 1e-10):
+            return {'tag': f'{k}/triangle', 'observed': a[k], 'expected': f'<= {b[k] + c[k]}'}
+    return None
+
+
+def o_rows(inp):
+    """N-row inputs: every row equals the single call on that row (quaternion metrics and chordal)"""
+    M = _M()
+    Pn, Qn = np.array(inp['P'], float), np.array(inp['Q'], float)
+    form = inp.get('form', 'float64')
+    N = Pn.shape[0]
+    for k in QM:
+        try:
+            got = np.asarray(getattr(M, k)(_cast(Pn, form), _cast(Qn, form)), float)
+        except Exception as e:
+            raise MetricRaises(f"{k}/rows-raises-{type(e).__name__}" + ('' if form == 'float64' else f'-{form}'))
+        if got.shape != (N,):
+            return {'tag': f'{k}/rows-shape-N{N}', 'observed': list(got.shape), 'expected': [N]}
+        for i in range(N):
+            e = closed(rel_angle(Pn[i], Qn[i]))[k]
+            if not abs(got[i] - e) <= TOL[k] * 10:
+                return {'tag': f'{k}/rows-N{N}' + ('' if form == 'float64' else f'-{form}'), 'observed': got.tolist(), 'expected': e, 'note': f'row {i}'}
+    A = np.array([cm.Rspec(x) for x in Pn]); B = np.array([cm.Rspec(x) for x in Qn])
+    got = np.asarray(M.chordal(_cast(A, form if form != 'int-list' else 'float64'), _cast(B, form if form != 'int-list' else 'float64')), float)
+    if got.shape != (N,):
+        return {'tag': f'chordal/rows-shape-N{N}', 'observed': list(got.shape), 'expected': [N]}
+    for i in range(N):
+        e = closed(rel_angle(Pn[i], Qn[i]))['chordal']
+        if not abs(got[i] - e) <= 1e-9:
+            return {'tag': f'chordal/rows-N{N}', 'observed': got.tolist(), 'expected': e, 'note': f'row {i}'}
+    return None
+
+
+ORACLES = {'pair': o_pair, 'coincide': o_coincide, 'triangle': o_triangle, 'rows': o_rows}
+
+
+def _call(f, inp):
+    from vlib.core import call_outcome
+    r = call_outcome(f, inp)
+    if r[0] == 'raise' and r[1] == 'MetricRaises':
+        return {'tag': r[2], 'observed': 'exception'}
+    if r[0] == 'raise':
+        form = inp.get('form', 'float64')
+        return {'tag': f"{f.__name__[2:]}/raises-{r[1]}" + ('' if form == 'float64' else f'-{form}'), 'observed': [str(x)[:200] for x in r[1:]]}
+    return r[1]
+
+
+def search(ctx, scale):
+    rng = ctx.rng
+    prs = _pairs(ctx, 60 * scale)
+    key = lambda *xs: tuple(tuple(np.round(np.asarray(x, float), 6).reshape(-1)) for x in xs)
+    for i, (t, p, q) in enumerate(prs):
+        r = cm.rand_unit_quat(rng) if i % 4 else cm.axang_q([0, 0, 1], math.pi)
+        inp = {'p': p.tolist(), 'q': q.tolist(), 'r': r.tolist()}
+        ctx.check('pair', inp, _call(o_pair, inp), nontrivial_key=key(p, q))
+        inp = {'p': p.tolist()}
+        ctx.check('coincide', inp, _call(o_coincide, inp), nontrivial_key=None)
+        r2 = cm.unit(cm.qmul(q, cm.axang_q(rng.standard_normal(3), float(rng.choice([1e-4, 1e-2, 1.0, 3.0, math.pi])))))
+        inp = {'p': p.tolist(), 'q': q.tolist(), 'r': r2.tolist()}
+        ctx.check('triangle', inp, _call(o_triangle, inp), nontrivial_key=key(p, q, r2))
+    # exactly representable rotations in every operand form (exact half-turns, exact equality, antipodes)
+    for form in ('float64', 'list', 'int-list', 'int', 'float32'):
+        for p, q in EXACT:
+            if form in ('int', 'int-list') and any(float(v) != int(v) for v in p + q):
+                continue
+            inp = {'p': list(map(float, p)), 'q': list(map(float, q)), 'r': [0.5, 0.5, -0.5, 0.5], 'form': form}
+            ctx.check('pair', inp, _call(o_pair, inp), nontrivial_key=(form,) + key(p, q))
+            inp = {'p': list(map(float, p)), 'form': form}
+            ctx.check('coincide', inp, _call(o_coincide, inp), nontrivial_key=None)
+    # N-row inputs
+    for N in (1, 2, 3, 4, 5, 7):
+        for rep in range(2 * scale):
+            sel = [prs[int(j)] for j in rng.integers(0, len(prs), N)]
+            Pn = np.array([s[1] for s in sel]); Qn = np.array([s[2] for s in sel])
+            inp = {'P': Pn.tolist(), 'Q': Qn.tolist()}
+            ctx.check('rows', inp, _call(o_rows, inp), nontrivial_key=(N,) + key(Pn, Qn))
+        ex = [EXACT[j % len(EXACT)] for j in range(N)]
+        for form in ('int', 'list', 'float32'):
+            rows = [e for e in ex if form != 'int' or all(float(v) == int(v) for v in e[0] + e[1])] or [EXACT[0]]
+            rows = (rows * N)[:N]
+            inp = {'P': [list(map(float, e[0])) for e in rows], 'Q': [list(map(float, e[1])) for e in rows], 'form': form}
+            ctx.check('rows', inp, _call(o_rows, inp), nontrivial_key=(N, form))
+    ctx.samples.append({'kind': 'search', 'oracle': 'pair', 'input': {'p': prs[4][1].tolist(), 'q': prs[4][2].tolist(), 'r': [0.5, 0.5, -0.5, 0.5]}})
